@@ -77,7 +77,8 @@ def special_inputs(rng):
     out.append(("long-ident", b"struct " + b"A" * 200000 + b" { uint8 a; };\ninterface I { method m(in " + b"A" * 200000 + b" x); };\n"))
     out.append(("many-structs", b"".join(b"struct S%d { uint32 a; uint32 b; };\n" % i for i in range(2000))))
     out.append(("many-methods", b"interface I {\n" + b"".join(b"  method m%d(in uint32 a, out uint64 b);\n" % i for i in range(3000)) + b"};\n"))
-    for n in (b"0", b"1", b"65535", b"65536", b"4294967296", b"99999999999999999999"):
+    for n in (b"0", b"1", b"65535", b"65536", b"65537", b"65540", b"70000", b"131071", b"131073", b"4294967295", b"4294967296", b"4294967297",
+              b"4295032833", b"18446744073709551617", b"99999999999999999999", b"00000000000000000007", b"065536"):
         out.append((f"field-array-{n.decode()}", b"struct S { uint8[" + n + b"] a; };\ninterface I { method m(in S s); };\n"))
         out.append((f"objarr-{n.decode()}", b"interface I { method m(in I[" + n + b"] s); };\n"))
     # nesting to the stated bound: depth 32 chain; fan-out 2 to depth 12
@@ -87,6 +88,10 @@ def special_inputs(rng):
     out.append(("nest-diamond-12", dia + b"interface I { method m(in D12 x); };\n"))
     out.append(("size-overflow", b"struct A { uint64[65535] a; };\nstruct B { A[65535] a; };\nstruct C { B[65535] a; };\nstruct D { C[65535] a; };\n"
                                  b"struct E { D[65535] a; };\ninterface I { method m(in E e); };\n"))
+    # struct sizes around 2^31 and 2^32 bytes (size arithmetic narrower than usize)
+    for rows in (4096, 4097, 8192, 8193, 8200, 16385):
+        out.append((f"size-rows-{rows}", b"struct Row { uint64[65535] px; };\nstruct Frame { Row[%d] rows; uint64 stamp; };\n"
+                                          b"interface I { method m(in Frame f, out Frame g); };\n" % rows))
     out.append(("self-cycle", b"struct S { S a; };\n"))
     out.append(("rho-cycle-1", b"struct Outer { Inner i; };\nstruct Inner { Inner again; };\n"))
     out.append(("rho-cycle-2", b"struct Header { uint64 a; Node n; };\nstruct Node { Link l; };\nstruct Link { Node back; };\n"))
@@ -174,6 +179,15 @@ def run(ctx, prop):
                     bad.append({"error": "debug and release builds wrote different bytes"})
                 if kind == "valid" and d[0] != 0 and not (b == "java" and any(idl.struct_has_objects(case, s) for s in idl.struct_table(case))):
                     bad.append({"error": "valid program rejected", "rc": d[0]})
+                # boundary numerals: an array bound outside 1..=65535 has to be refused (it cannot be
+                # represented; emitting output for it is "silently emits output for input it should
+                # have refused"), one inside must not be refused for its size
+                if kind.startswith("field-array-") or kind.startswith("objarr-"):
+                    nval = int(kind.rsplit("-", 1)[1])
+                    if not (1 <= nval <= 65535) and d[0] == 0:
+                        bad.append({"error": "array bound outside 1..=65535 accepted: output emitted for input that has to be refused", "bound": nval})
+                    if kind.startswith("field-array-") and 1 <= nval <= 65535 and d[0] != 0 and b != "java":
+                        bad.append({"error": "array bound inside 1..=65535 refused", "bound": nval, "rc": d[0]})
                 if d[0] == 0:
                     accepted += 1
                 else:
